@@ -3,7 +3,9 @@
 package kvhist
 
 import (
+	"encoding/json"
 	"fmt"
+	"sort"
 	"strconv"
 	"strings"
 
@@ -235,6 +237,43 @@ func (h *Hist) CoqOps() string {
 			}
 			ss[i] = fmt.Sprintf("OChild [%s] %s", strings.Join(ps, ";"), lib.CoqBool(h.Obs[i] == "OAccepted"))
 		}
+	}
+	return "[" + strings.Join(ss, ";") + "]"
+}
+
+// RangeObs reads all keys of the instance at version v through the range endpoint
+// (keyrangevalues, JSON form) and prints `(v, Some [(k,x);...])` or `(v, None)` when the request
+// failed or its body is not the JSON object the API promises.
+func (h *Hist) RangeObs(inst string, v int) string {
+	r := dv.Get("/api/node/" + h.UUIDs[v-1] + "/" + inst + "/keyrangevalues/k0/k9?json=true")
+	if r.Status != 200 {
+		return fmt.Sprintf("(%d, None)", v)
+	}
+	var m map[string]int
+	if err := json.Unmarshal(r.Body, &m); err != nil {
+		return fmt.Sprintf("(%d, None)", v)
+	}
+	var ks []int
+	for name := range m {
+		var k int
+		if _, err := fmt.Sscanf(name, "k%d", &k); err != nil {
+			return fmt.Sprintf("(%d, None)", v)
+		}
+		ks = append(ks, k)
+	}
+	sort.Ints(ks)
+	var ss []string
+	for _, k := range ks {
+		ss = append(ss, fmt.Sprintf("(%d,%d)", k, m[fmt.Sprintf("k%d", k)]))
+	}
+	return fmt.Sprintf("(%d, Some [%s])", v, strings.Join(ss, ";"))
+}
+
+// RangeSweep prints the range observations of every version.
+func (h *Hist) RangeSweep(inst string) string {
+	var ss []string
+	for v := 1; v <= len(h.UUIDs); v++ {
+		ss = append(ss, h.RangeObs(inst, v))
 	}
 	return "[" + strings.Join(ss, ";") + "]"
 }
